@@ -82,8 +82,9 @@ def check_mol(acc, m, tag, full_grid):
 
 
 def _normtext(x):
-    """fragment text modulo what the fragment descriptor does not contain: aromatic case, hydrogen counts, direction"""
-    return ''.join(sorted(c for c in x.lower() if c not in '[]h0123456789'))
+    """fragment text modulo what the fragment descriptor does not contain: aromatic case, hydrogen counts, direction, and the number of bond
+    symbols (a double bond that closes a ring is written at both digits: C=1C2=CC=12 and C1=C2C=C12 are one fragment)"""
+    return ''.join(sorted(c for c in x.lower() if c.isalpha() and c != 'h'))
 
 
 def signature(m):
@@ -105,9 +106,30 @@ def compare_sig(acc, a, b, **detail):
     elif a[6] != b[6]:
         acc.fail(KF_TEXT, **detail)
     elif a[7] != b[7]:
-        # the neighbourhood SMILES differ only in stereo marks of the cut-out fragment: canonical-SMILES gap on
-        # pseudo-asymmetric centres (C01's stated exclusion), not a fingerprint property
-        acc.ood['morgan_hash_smiles text differs only in stereo marks of the fragment (C01 pseudo-asymmetric gap)'] += 1
+        # the neighbourhood texts differ although hash keys, sets and bits agree. If both texts denote the same fragment (independent canonical code of the
+        # parsed texts, stereo ignored) this is the canonical-SMILES gap that C01 records (stereo marks on pseudo-asymmetric centres of the cut-out fragment,
+        # Kekule spelling of alternating rings such as C=1C2=CC=12 / C1=C2C=C12), not a fingerprint property; otherwise the dictionary names another fragment.
+        da, db = dict(a[7]), dict(b[7])
+        for k in da:
+            if da[k] != db.get(k) and sorted(map(_frag_code, da[k])) != sorted(map(_frag_code, db.get(k, ()))):
+                acc.fail('morgan_hash_smiles names a different fragment for the same identifier under another numbering', texts=[list(da[k]), list(db.get(k, ()))], **detail)
+                return
+        acc.ood['morgan_hash_smiles text differs only in the canonical spelling of the cut-out fragment (C01 gaps: stereo marks, alternating-ring Kekule form)'] += 1
+
+
+def _frag_code(text):
+    from chython import smiles
+    from ..oracle import iso
+    try:
+        m = smiles(text)
+        if any(bd.order == 4 for *_, bd in m.bonds()):
+            m.kekule()
+            m.thiele()
+    except Exception:
+        return ('unreadable', text)
+    idx = {n: i for i, n in enumerate(m)}
+    return iso.canon_code(len(m), [(idx[x], idx[y]) for x, y, _ in m.bonds()], [(at.atomic_symbol, at.charge, at.is_radical, at.isotope) for _, at in m.atoms()],
+                          {frozenset((idx[x], idx[y])): 1 for x, y, bd in m.bonds()})
 
 
 def run_small(shard):
